@@ -426,7 +426,8 @@ def known_assoc_nested(prog):
 
 def known_uv_assoc(prog):
     """an ASSOCIATE whose selector is an expression (not a variable, element or section): get_used_or_defined_symbols
-    meets the expression among the used symbols and raises AttributeError (no name_parts)"""
+    meets the expression itself among the used symbols — a Sum raises AttributeError (no name_parts), a Product passes but
+    the variables inside it are not counted as used, so a name that occurs only there loses its declaration"""
     for u in prog[2:]:
         for s in iter_stmts(u[4]):
             if _h(s) == 'assoc' and any(_h(b[1]) not in ('v', 'idx', 'sec') for b in s[1]):
@@ -461,6 +462,8 @@ def classify(op, flag, prog, kind=''):
             table.insert(0, ('uv-do-variable-removed', known_uv_dovar))
         if kind.startswith('raise attributeerror'):
             table.insert(0, ('uv-associate-expression-selector', known_uv_assoc))
+        else:
+            table.append(('uv-associate-expression-selector', known_uv_assoc))
     else:
         table = []
     for name, pred in table:
